@@ -92,7 +92,10 @@ class Step:
         if op in self.hooks:
             return self.hooks[op](t, env)
         if op in ('[]', '()') and len(t) == 3 and (t[2] in self.index_vars or isinstance(t[2], int)):
-            return self.ev(t[1], env)
+            b_ = self.ev(t[1], env)
+            if isinstance(b_, list) and isinstance(t[2], int):
+                return b_[t[2]]                 # a concrete small vector held as a list: element access
+            return b_
         if op in TRANSPARENT and len(t) == 2:
             return self.ev(t[1], env)
         if isinstance(op, str) and op.startswith('std::numeric_limits<') and len(t) == 1:
@@ -148,6 +151,15 @@ class Step:
             return min(self.ev(t[1], env), self.ev(t[2], env))
         if op in MAXS and len(t) == 3:
             return max(self.ev(t[1], env), self.ev(t[2], env))
+        if op in ('=', '+=', '-=', '*=', '/=') and len(t) == 3 and isinstance(t[1], tuple) and len(t[1]) == 3 and t[1][0] in ('[]', '()') and isinstance(t[1][2], int):
+            try:
+                cont = env.get(self.key(t[1][1]))
+            except Unsupported:
+                cont = None
+            if isinstance(cont, list):              # element of a concrete small vector
+                v = self.ev(t[2], env)
+                cont[t[1][2]] = v if op == '=' else ARI[op[0]](cont[t[1][2]], v)
+                return cont[t[1][2]]
         if op == '=' and len(t) == 3:
             v = self.ev(t[2], env)
             env[self.key(t[1])] = v
